@@ -91,8 +91,17 @@ def gen_reply(tape, code, text, allow_multi=True):
     inner = []
     digits = False
     for _ in range(tape.between(1, 3, 'reply.inner.n')):
-        k = tape.draw(12, 'reply.inner.k')
-        if k == 9:
+        k = tape.draw(15, 'reply.inner.k')
+        if k == 12:
+            inner.append(c + b'-page one\x0c' + c + b' page two')          # form feed, then what looks like a final line: still ONE line
+            digits = True
+        elif k == 13:
+            inner.append(b'info\xe2\x80\xa8' + c + b' after a line separator (U+2028)')
+            digits = True
+        elif k == 14:
+            inner.append(b'motd\xc2\x85' + c + b' after NEL, ' + b'a\x1cb\x1dc\x1ed\x0be')
+            digits = True
+        elif k == 9:
             inner.append(c + b'3 bytes sent')             # the reply's own code followed by another digit: a text line
             digits = True
         elif k == 10:
